@@ -218,7 +218,11 @@ func runPlan(t *testing.T, def *PropDef, p *Plan) (o *Outcome) {
 	if d := lastDeadlock.Load(); d != nil {
 		// a cycle of tasks each waiting for a lock the next one holds: reported whatever else the run's own
 		// oracle made of the commands that never completed
-		o.Sig = def.ID + "/deadlock/lock-order:" + d.On
+		kind := d.Kind
+		if kind == "" {
+			kind = "lock-order"
+		}
+		o.Sig = def.ID + "/deadlock/" + kind + ":" + d.On
 		o.Detail = "deadlock: " + d.Detail
 	}
 	return o
